@@ -90,6 +90,12 @@ CLAIMS = {
                      "to_json/parse_json, save/load via a file and a second serialisation; documents, bit patterns of all arrays, counters, "
                      "flags and metadata compared; 18 declared versions against the version rule",
                 technique="TLA+ spec PhystIO (document schema) + TLC; replay of Pick/ToJson/Parse/ToJson2/SaveLoad/VersionCheck transitions"),
+    "C15": dict(spec="PhystSpecial", design="5/C15",
+                text="the true bin of an integer point is defined by exact integer predicates (squared radii vs squared edges, signs, |x| vs |y|, "
+                     "z^2 vs rho^2); TLC checks SectorSymmetry and ProjectionIsMarginal; every entry path (facade, fill, fill_n, find_bin, each "
+                     "raw or pre-transformed) of the eight classes is replayed for points in all octants, on axes, diagonals, the cone, the "
+                     "origin, radial edges, with signed zeros and scalings; projections compared by class and marginal contents",
+                technique="TLA+ spec PhystSpecial (integer geometry) + TLC; lockstep replay of all entry paths"),
 }
 
 PENDING = {}
